@@ -280,7 +280,7 @@ add("C15", "subclass body pops from the parent's KEYWORDS", "sqlglot/dialects/du
     "        KEYWORDS = {\n            **tokens.Tokenizer.KEYWORDS,\n            \"//\": TokenType.DIV,",
     "        tokens.Tokenizer.KEYWORDS.pop(\"VERIF_NO_SUCH\", None)\n        KEYWORDS = {\n            **tokens.Tokenizer.KEYWORDS,\n            \"//\": TokenType.DIV,", "C15.c")
 add("C15", "class body mutates an inherited table by alias", "sqlglot/dialects/duckdb.py",
-    "    DATE_PART_MAPPING = {\n        **Dialect.DATE_PART_MAPPING,\n        \"DAYOFWEEKISO\": \"ISODOW\",\n    }\n",
+    "    DATE_PART_MAPPING = {\n        # The aliases of DAYOFWEEKISO are mapped to ISODOW directly, the table is looked up only once\n        **{k: \"ISODOW\" if v == \"DAYOFWEEKISO\" else v for k, v in Dialect.DATE_PART_MAPPING.items()},\n        \"DAYOFWEEKISO\": \"ISODOW\",\n    }\n",
     "    DATE_PART_MAPPING = Dialect.DATE_PART_MAPPING\n", "C15.c")
 add("C15", "module-level name_sequence", "sqlglot/optimizer/qualify_tables.py",
     "def qualify_tables(\n", "_NEXT = name_sequence(\"_q\")\n\n\ndef qualify_tables(\n", "C15.e")
